@@ -102,6 +102,9 @@ M2+=[ # completeness of loops (covers clauses)
  ("C16","notaryserver/notary.server.go","	for _, trx := range trxs {\n		protoTrx, err := transformers.TrxToProtoTrx(trx)\n		if err != nil {\n			s.log.Warn(fmt.Sprintf(\"waiting endpoint","	for _, trx := range trxs[:min(len(trxs), 50)] {\n		protoTrx, err := transformers.TrxToProtoTrx(trx)\n		if err != nil {\n			s.log.Warn(fmt.Sprintf(\"waiting endpoint","the waiting endpoint answers at most 50 awaiting transactions"),
  ("C12","gossip/gossip.go","invalid signature for hash %v gossip\", member.Address, hash))\n			continue","invalid signature for hash %v gossip\", member.Address, hash))\n			break","the gossiper list is abandoned at the first entry with a bad signature (valid entries behind it are dropped)"),
 ]
+M2+=[ # decisions restated over the data (a clause triggered by a predicate call is vacuous once the code decides differently)
+ ("C10","accountant/accountant.go","			if vrx.Transaction.IsEmpty() {\n				cancelF(fmt.Errorf(\"loading DAG process stopped due to transaction being empty","			if !vrx.Transaction.IsContract() && vrx.Transaction.Spice.Currency == 0 && vrx.Weight > 0 {\n				cancelF(fmt.Errorf(\"loading DAG process stopped due to transaction being empty","LoadDag's emptiness test rewritten without IsEmpty and wrong for fractional amounts and weight 0"),
+]
 N=[ # neutral edits: every check must stay at exit 0
  ("accountant/accountant.go","	validatedLeafs := make([]*Vertex, 0, 2)\n","	validatedLeafs := make([]*Vertex, 0, 2)\n	ab.log.Debug(\"validating the parents of an incoming leaf\")\n","add a log line"),
  ("accountant/founds.go","	sink := spice.New(0, 0)\n	if err := in.Drain(*out, &sink); err != nil {","	target := spice.New(0, 0)\n	if err := in.Drain(*out, &target); err != nil {","rename a local"),
